@@ -393,7 +393,7 @@ pub async fn run_conc<B: Backend>(
     if out.violation.is_none() && r.out.violations.is_empty() {
         // every node, on a fresh tracked engine, against the last snapshot
         // (lost invalidations show here)
-        for n in 0..case.prog.nodes.len() as u32 {
+        for n in (0..case.prog.nodes.len() as u32).filter(|y| !case.prog.is_partial(*y)) {
             r.step(&Step::Query(n)).await;
             if !r.out.violations.is_empty() {
                 break;
@@ -427,6 +427,7 @@ pub fn decode_c04(bytes: &[u8], tier: Tier) -> ConcCase {
         allow_spawn: true,
         allow_detached: false,
         allow_unord: true,
+        allow_partial: true,
         max_depth: 2,
     };
     let prog = Program::decode(&mut t, &g);
@@ -464,7 +465,7 @@ pub fn decode_c04(bytes: &[u8], tier: Tier) -> ConcCase {
             let nq = 1 + t.idx(3);
             let queries = (0..nq)
                 .map(|_| {
-                    if t.chance(150) { (n - 1 - t.idx(n.min(3))) as u32 } else { t.idx(n) as u32 }
+                    prog.queryable(if t.chance(150) { (n - 1 - t.idx(n.min(3))) as u32 } else { t.idx(n) as u32 })
                 })
                 .collect();
             tasks.push(TaskSpec::Reader { queries, loops: 1 + t.idx(3) });
@@ -502,7 +503,7 @@ pub fn decode_c02(bytes: &[u8], tier: Tier) -> ConcCase {
         for _ in 0..ntasks {
             let nq = 1 + t.idx(3);
             let queries = (0..nq)
-                .map(|_| if t.chance(150) { hot } else { t.idx(n) as u32 })
+                .map(|_| prog.queryable(if t.chance(150) { hot } else { t.idx(n) as u32 }))
                 .collect();
             tasks.push(TaskSpec::Reader { queries, loops: 1 });
         }
